@@ -97,9 +97,11 @@ pub fn run(tier: Tier) -> i32 {
         // all schedules with <= bound deviations (the number of schedules grows as
         // (4 x points)^d, so d depends on the number of decision points of the scenario)
         let p = trace1.len();
+        // (a run of a big-block scenario moves megabytes: one deviation less at equal p)
+        let big = name.contains("bigblock");
         let bound_s = match tier {
-            Tier::Quick => if p <= 80 { 2 } else { 1 },
-            Tier::Thorough => if p <= 40 { 3 } else if p <= 500 { 2 } else { 1 },
+            Tier::Quick => if p <= 80 && !big { 2 } else { 1 },
+            Tier::Thorough => if p <= 40 && !big { 3 } else if p <= 500 { 2 } else { 1 },
         };
         let _ = bound;
         let a = explore(bound_s, &deadline, |prefix, acc| {
@@ -149,7 +151,7 @@ pub fn run(tier: Tier) -> i32 {
     total.sample(|| json!({"example_schedule": "Prefix([(0,5),(0,5),(2,5)]) = third transfer answers with ceil(len/2) bytes, all others transfer fully; answers per transfer: 0 full, 1 one byte, 2 half, 3 len-1, last Interrupted"}));
     rep.acc = total;
     rep.set("rule", json!("E3: per scenario (writer -> scheduled sink; reader/cursor/range/prefix iterators over a scheduled source; 3-way merge over scheduled sources, streamed and into a scheduled sink; sorter over scheduled chunk storage, three extraction paths) the instrumented object asks the explorer at every write/read call; default answer = transfer everything, deviations = {1 byte, ceil(len/2), len-1, Err(Interrupted)}; ALL schedules with <= d deviations are enumerated (DFS over choice vectors replaying the prefix, hard error on prefix divergence) plus 4 uniform adversarial schedules; oracle: every public call's result digest and the byte stream received by each sink identical to the reference run with the all-default schedule, which is itself run twice; evaluations = schedules executed, transitions = transfer decisions taken, distinct_nontrivial = schedules with >= 1 deviation"));
-    rep.set("bound", json!({"deviations": "quick: 2 for scenarios with <= 80 decision points in the default run, else 1; thorough: 3 for <= 40, 2 for <= 500, else 1 (per scenario in samples[0].per_scenario)", "scenarios": list.iter().map(|x| x.0.clone()).collect::<Vec<_>>()}));
+    rep.set("bound", json!({"deviations": "quick: 2 for scenarios with <= 80 decision points in the default run, else 1; thorough: 3 for <= 40, 2 for <= 500, else 1; the big-block scenarios (stored blocks above 64 KiB / 256 KiB / 1 MiB) one less at equal size (per scenario in samples[0].per_scenario)", "scenarios": list.iter().map(|x| x.0.clone()).collect::<Vec<_>>()}));
     rep.assume("flush and seek are never interrupted (the property speaks of writes and reads)");
     rep.finish()
 }
